@@ -111,6 +111,10 @@ pub struct Case {
     pub keys: Vec<i64>,
     pub k: usize,
     pub script: Vec<u64>,
+    /// > 0: before every judged draw the same thread runs a tournament over another population that is
+    /// this many individuals larger (whatever a selector or its thread remembers must not leak)
+    #[serde(default)]
+    pub other: u8,
 }
 
 pub fn oracle(c: &Case, probe: &mut Probe) -> Result<(), Fail> {
@@ -158,7 +162,12 @@ pub fn oracle(c: &Case, probe: &mut Probe) -> Result<(), Fail> {
         probe.nontrivial = true;
         return Ok(());
     }
+    let other_pop = pop_of(&(0..(n + usize::from(c.other)) as i64).collect::<Vec<_>>());
     for _ in 0..3 {
+        if c.other > 0 {
+            let _ = guarded(|| t.select(&other_pop, &mut rng).map(|w| w.id).ok());
+            take_compared();
+        }
         let (id, s) = draw(&t, &pop, k, &mut rng)?;
         // at least as good as k-1 other members
         let not_better = pop.iter().filter(|i| i.id != id && i.key <= pop[id as usize].key).count();
@@ -199,9 +208,10 @@ fn strategy(max_n: usize) -> BoxedStrategy<Case> {
                 prop::collection::vec(key, n),
                 prop_oneof![4 => 1usize..=n.max(1), 1 => Just(n + 1), 1 => Just(n), 1 => Just(1usize)],
                 prop::collection::vec(any::<u64>(), 0..24),
+                prop_oneof![3 => Just(0u8), 1 => 1u8..9],
             )
         })
-        .prop_map(|(keys, k, script)| Case { keys, k, script })
+        .prop_map(|(keys, k, script, other)| Case { keys, k, script, other })
         .boxed()
 }
 
@@ -217,14 +227,20 @@ fn law_jobs(seed: u64) -> Vec<Job> {
     let mut cfg = 0u64;
     for n in 1usize..=7 {
         for k in 1..=n {
-            for variant in 0..2u64 {
+            // variant 2: every judged draw is preceded, on the same thread, by a tournament of the same
+            // size over another population of n + 5 individuals (the law of the judged draw is unchanged)
+            for variant in 0..3u64 {
                 if variant == 1 && (n < 3 || (n + k) % 2 == 0) {
                     continue;
                 }
+                if variant == 2 && (n < 3 || (n + k) % 3 != 0) {
+                    continue;
+                }
+                let alternating = variant == 2;
                 cfg += 1;
                 let keys: Vec<i64> = (0..n)
                     .map(|i| {
-                        if variant == 0 {
+                        if variant != 1 {
                             // distinct keys in a seed-dependent order
                             ((splitmix(seed ^ cfg ^ (i as u64) << 8) % 1000) as i64) * 8 + i as i64
                         } else {
@@ -232,7 +248,7 @@ fn law_jobs(seed: u64) -> Vec<Job> {
                         }
                     })
                     .collect();
-                let name = format!("Tournament({k}) over keys {keys:?}");
+                let name = format!("Tournament({k}) over keys {keys:?}{}", if alternating { ", alternating with a population of another size" } else { "" });
                 let keys2 = keys.clone();
                 jobs.push(Job {
                     name: name.clone(),
@@ -244,7 +260,12 @@ fn law_jobs(seed: u64) -> Vec<Job> {
                         let mut winner_key: BTreeMap<i64, u64> = BTreeMap::new();
                         let mut winner_id = vec![0u64; n];
                         let mut oversampled = 0u64;
+                        let other_pop = pop_of(&(0..(n + 5) as i64).collect::<Vec<_>>());
                         for _ in 0..trials {
+                            if alternating {
+                                let _ = t.select(&other_pop, &mut rng).map(|w| w.id).ok();
+                                take_compared();
+                            }
                             let (id, s) = draw(&t, &pop, k, &mut rng)?;
                             if s.len() == k {
                                 *subset_counts.entry(s).or_default() += 1;
